@@ -9,6 +9,7 @@ One output line per input line:  M<TAB>S<TAB>G<TAB>T
 -/
 import DtailModel.Model.Hex
 import DtailModel.Model.Wire
+import DtailModel.Model.Grep
 open Dtail
 
 structure Res where
@@ -64,11 +65,66 @@ def opC01E2E : List String → Res
     | _, _ => bad
   | _ => bad
 
+/-! C03 -/
+
+def bitsOf (s : String) : List Bool := if s = "-" then [] else s.toList.map (· == '1')
+
+/-- the regexp engine as a table: raw line ↦ answer, chomped line ↦ answer -/
+def engineOf (raw : List Bytes) (bNL bNo : List Bool) : Bytes → Bool :=
+  let tab := (raw.zip bNL) ++ ((raw.map chomp).zip bNo)
+  fun l => ((tab.find? (fun p => p.1 == l)).map (·.2)).getD false
+
+def c03tags (B A M : Nat) (ls : List (Bool × Bytes)) (outLen : Nat) : String :=
+  let nsel := (ls.filter (·.1)).length
+  joinWith "," ((if B > 0 then ["before"] else []) ++ (if A > 0 then ["after"] else [])
+    ++ (if M > 0 then ["max"] else []) ++ (if M > 0 ∧ nsel > M then ["cut"] else [])
+    ++ (if M > 0 ∧ nsel > M ∧ A > 0 then ["cut+after"] else [])
+    ++ (if B > 0 ∧ ls.length > B + 1 then ["ring-wrapped"] else [])
+    ++ (if outLen < ls.length ∧ outLen > nsel then ["context-partial"] else []))
+
+def c03common (a : List String) : Option (Nat × Nat × Nat × Nat × RFlag × (Bytes → Bool) × List Bytes × List Bool × List Bool) :=
+  match a with
+  | [m, B, A, M, inv, pat, bNL, bNo, c] => do
+    let m ← m.toNat?; let B ← B.toNat?; let A ← A.toNat?; let M ← M.toNat?
+    let pat ← unhex pat; let bs ← unhex c
+    let raw := readLines m bs
+    let bNL := bitsOf bNL; let bNo := bitsOf bNo
+    if bNL.length ≠ raw.length ∨ bNo.length ≠ raw.length then none
+    else some (m, B, A, M, clientFlag pat (inv = "1"), engineOf raw bNL bNo, raw, bNL, bNo)
+  | _ => none
+
+def opC03Grep (a : List String) : Res :=
+  match c03common a with
+  | some (_, B, A, M, f, eng, raw, _, _) =>
+    let out := dgrepLines B A M f eng raw
+    let lsSpec := raw.map (fun l => (matchFlag f (eng (chomp l)), l))
+    let spec := grepSpec B A M (blocks lsSpec).1 (blocks lsSpec).2
+    { m := joinWith "," (out.map (fun (n, l) => s!"{n}:{hexOf l}")),
+      s := joinWith "," (spec.map hexOf),
+      g := if f != .noop ∧ sigNlSensitive eng raw then "nl-sensitive" else "-",
+      t := c03tags B A M lsSpec out.length }
+  | none => bad
+
+def opC03E2E (a : List String) : Res :=
+  match c03common a with
+  | some (_, B, A, M, f, eng, raw, _, _) =>
+    let out := dgrepLines B A M f eng raw
+    let lsSpec := raw.map (fun l => (matchFlag f (eng (chomp l)), l))
+    let spec := grepSpec B A M (blocks lsSpec).1 (blocks lsSpec).2
+    let frames := out.map (fun (n, l) => frameLine true [] 32768 ⟨l, n, 100, []⟩)
+    { m := "0;" ++ hexOf (printed (clientFeed ⟨[], []⟩ frames.flatten).msgs),
+      s := "0;" ++ hexOf spec.flatten,
+      g := if f != .noop ∧ sigNlSensitive eng raw then "nl-sensitive" else "-",
+      t := c03tags B A M lsSpec out.length }
+  | none => bad
+
 def dispatch (line : String) : Res :=
   match (line.splitOn " ").filter (· ≠ "") with
   | "c01.reader" :: a => opC01Reader a
   | "c01.pipe" :: a => opC01Pipe a
   | "c01.e2e" :: a => opC01E2E a
+  | "c03.grep" :: a => opC03Grep a
+  | "c03.e2e" :: a => opC03E2E a
   | _ => bad
 
 partial def loop (h : IO.FS.Stream) (out : IO.FS.Stream) : IO Unit := do
